@@ -285,8 +285,32 @@ Section AgreeDe.
       cbn [fold_left]. f_equal. f_equal. unfold ins_entry. rewrite Ek. reflexivity.
   Qed.
 
-  Lemma loop_fuel_enough n len : n <= 65536 -> (N.to_nat n <= loop_fuel n len)%nat.
+  Lemma loop_fuel_enough n len : n <= 65536 \/ n <= N.of_nat len -> (N.to_nat n <= loop_fuel n len)%nat.
   Proof. intros H. unfold loop_fuel. destruct (N.leb_spec n (N.of_nat len + 65536)); lia. Qed.
+  (* as many elements as bytes at most, when no element has an empty encoding *)
+  Lemma fat_elements_fit (xs : list nvalue) rest :
+    forallb (fun x => negb (N.of_nat (length (spec_enc (erase x))) =? 0)) xs = true ->
+    (length xs <= length (flat_map spec_enc (map erase xs) ++ rest))%nat.
+  Proof.
+    intros H. rewrite app_length. enough (length xs <= length (flat_map spec_enc (map erase xs)))%nat by lia.
+    induction xs as [|x r IH]; [cbn; lia|]. cbn [forallb] in H. apply andb_prop in H as [H1 H2].
+    cbn [map flat_map length]. rewrite app_length. specialize (IH H2).
+    apply negb_true_iff in H1. apply N.eqb_neq in H1. lia.
+  Qed.
+  Lemma spec_varint_nonempty n : (1 <= length (spec_varint n))%nat.
+  Proof. unfold spec_varint. cbn [spec_varint_fuel]. destruct (n <? 128); cbn [length]; lia. Qed.
+  (* ... and every map entry starts with its key's length prefix *)
+  Lemma entries_fit (kvs : list (nvalue * nvalue)) t rest :
+    forallb (fun kv => conforms d (fst kv) (SPrim PString) && conforms d (snd kv) t) kvs = true ->
+    (length kvs <= length (flat_map (fun kv => spec_enc (fst kv) ++ spec_enc (snd kv)) (map (fun kv => (erase (fst kv), erase (snd kv))) kvs) ++ rest))%nat.
+  Proof.
+    intros H. rewrite app_length.
+    enough (length kvs <= length (flat_map (fun kv => spec_enc (fst kv) ++ spec_enc (snd kv)) (map (fun kv => (erase (fst kv), erase (snd kv))) kvs)))%nat by lia.
+    induction kvs as [|kv r IH]; [cbn; lia|]. cbn [forallb] in H. apply andb_prop in H as [H1 H2]. apply andb_prop in H1 as [Hk _].
+    cbn [map flat_map length fst snd]. rewrite !app_length. specialize (IH H2).
+    destruct (fst kv) as [| | | | |k| | | | | | | | | | | |]; cbn [conforms prim_conforms] in Hk; try discriminate Hk.
+    cbn [erase spec_enc]. rewrite app_length. unfold spec_len. pose proof (spec_varint_nonempty (N.of_nat (length k))). lia.
+  Qed.
 
   Theorem de_agree : forall v, agree_de_at v.
   Proof.
@@ -314,7 +338,7 @@ Section AgreeDe.
       intros xs IH s rest Hc Hu Hs Hm Hr. destruct s; cbn [conforms] in Hc; try discriminate Hc.
       + exfalso. destruct p; cbn [prim_conforms] in Hc; try discriminate Hc. discriminate Hs.
       + apply andb_prop in Hc as [Hc Hl]. apply N.ltb_lt in Hl. cbn [unamb in_scope small_seqs] in Hu, Hs, Hm.
-        apply andb_prop in Hm as [Hsm Hm]. apply N.leb_le in Hsm.
+        apply andb_prop in Hm as [Hsm Hm].
         unfold DE. cbn [dyn_de]. rewrite de_no_panic_arm. fold DE. cbn [erase spec_enc]. rewrite <- app_assoc.
         unfold spec_len. rewrite map_length.
         assert (Hok : bytes_ok (flat_map spec_enc (map erase xs) ++ rest)).
@@ -323,7 +347,9 @@ Section AgreeDe.
           split; [eapply conf_bytes_ok; exact H1|apply IHr; exact H2]. }
         rewrite dusize_roundtrip by assumption. cbn [dbind].
         rewrite (de_repeat_agree s xs IH Hc Hu Hs Hm); [reflexivity| |exact Hr].
-        rewrite <- (Nat2N.id (length xs)) at 1. apply loop_fuel_enough. exact Hsm.
+        rewrite <- (Nat2N.id (length xs)) at 1. apply loop_fuel_enough.
+        apply orb_prop in Hsm as [Hsm|Hsm]; [left; apply N.leb_le; exact Hsm|right].
+        pose proof (fat_elements_fit xs rest Hsm). lia.
       + destruct k; discriminate Hc.
     - (* tuple *)
       intros xs IH s rest Hc Hu Hs Hm Hr. destruct s; cbn [conforms] in Hc; try discriminate Hc.
@@ -343,7 +369,7 @@ Section AgreeDe.
       + exfalso. destruct p; cbn [prim_conforms] in Hc; try discriminate Hc. discriminate Hs.
       + apply andb_prop in Hc as [Hc Hl]. apply N.ltb_lt in Hl. cbn [unamb] in Hu. apply andb_prop in Hu as [Hu Hasc].
         cbn [in_scope] in Hs. destruct s1 as [[]| | | | | |]; try discriminate Hs.
-        cbn [small_seqs] in Hm. apply andb_prop in Hm as [Hsm Hm]. apply N.leb_le in Hsm.
+        cbn [small_seqs] in Hm.
         unfold DE. cbn [dyn_de]. rewrite de_no_panic_arm. fold DE. cbn [erase spec_enc]. rewrite <- app_assoc.
         unfold spec_len. rewrite map_length.
         assert (Hok : bytes_ok (flat_map (fun kv => spec_enc (fst kv) ++ spec_enc (snd kv)) (map (fun kv => (erase (fst kv), erase (snd kv))) kvs) ++ rest)).
@@ -353,7 +379,8 @@ Section AgreeDe.
           apply bytes_ok_app. split; eapply conf_bytes_ok; eassumption. }
         rewrite dusize_roundtrip by assumption. cbn [dbind].
         rewrite (de_entries_agree s2 kvs IH Hc Hu Hs Hm); [reflexivity| |exact Hr].
-        rewrite <- (Nat2N.id (length kvs)) at 1. apply loop_fuel_enough. exact Hsm.
+        rewrite <- (Nat2N.id (length kvs)) at 1. apply loop_fuel_enough. right.
+        pose proof (entries_fit kvs s2 rest Hc). lia.
       + destruct k; discriminate Hc.
     - (* struct with named fields *)
       intros n fs IH s rest Hc Hu Hs Hm Hr. destruct s; cbn [conforms] in Hc; try discriminate Hc.
